@@ -59,14 +59,14 @@ TOL_COMMIT = 1e-3   # committed state vs state integrated at the saved displacem
 # shared machinery
 
 
-def integrate(beh, eps, zOld, dt):
+def integrate(beh, eps, zOld, dt, cls=""):
     """Behavior.Integrate; the documented non-convergence assertion of the plane-stress loop makes
     the case inconclusive (the property is quantified over step sizes that converge)."""
     try:
         return beh.Integrate(FeArray.asfearray(np.array(eps, float)), zOld, dt)
     except AssertionError as e:
         if "did not converge" in str(e):
-            raise Inconclusive("plane-stress iteration did not converge")
+            raise Inconclusive("plane-stress iteration did not converge " + cls)
         raise
 
 
@@ -81,6 +81,37 @@ def strain6(beh, mode, eps, zOld, dt):
         if "did not converge" in str(e):
             raise Inconclusive("plane-stress iteration did not converge")
         raise
+
+
+def integrate_by_column(beh, mode, eps, zOld, dt, cls="", with_eps6=True):
+    """(sig, C_alg, z, converged, eps6) of a batch. The plane-stress loop asserts convergence for the whole batch;
+    when it refuses, the batch is re-run one Gauss-point column at a time (independent points: the batch layout
+    must not matter) and the refused columns are returned as non-converged (NaN outputs, flag False)."""
+    try:
+        out = integrate(beh, eps, zOld, dt, cls)
+        return tuple(out) + ((strain6(beh, mode, eps, zOld, dt),) if with_eps6 else ())
+    except Inconclusive:
+        if mode != "PS" or np.shape(eps)[1] == 1:
+            raise
+    Ne, nPg, nc = np.shape(eps)
+    z0 = np.asarray(zOld, float)
+    sig = np.full((Ne, nPg, nc), np.nan)
+    Calg = np.full((Ne, nPg, nc, nc), np.nan)
+    z1 = np.full(z0.shape, np.nan)
+    ok = np.zeros((Ne, nPg), bool)
+    eps6 = np.full((Ne, nPg, 6), np.nan)
+    for g in range(nPg):
+        zg = FeArray.asfearray(z0[:, g:g + 1].copy())
+        try:
+            s, C, z, o = integrate(beh, eps[:, g:g + 1], zg, dt, cls)
+            e6 = strain6(beh, mode, eps[:, g:g + 1], zg, dt) if with_eps6 else 0.0
+        except Inconclusive:
+            continue
+        sig[:, g:g + 1], Calg[:, g:g + 1], z1[:, g:g + 1] = np.asarray(s), np.asarray(C), np.asarray(z)
+        ok[:, g:g + 1], eps6[:, g:g + 1] = np.asarray(o, bool), e6
+    if not ok.any():
+        raise Inconclusive("plane-stress iteration did not converge (every column) " + cls)
+    return (sig, Calg, z1, ok, eps6) if with_eps6 else (sig, Calg, z1, ok)
 
 
 def geq0(rec, values, scale, tol, oracle, msg, **sig):
@@ -179,26 +210,28 @@ def check_paths(case, rec):
                 "State_zeros is not a zero (Ne,nPg,n) array", **sg)
     was_plastic = np.zeros((Ne, nPg), bool)
     unloaded = np.zeros((Ne, nPg), bool)
+    cls = f"[{sg['local']} rate={sg['rate_n']} kin={min(sg['nkin'], 1)} br={min(sg['nbranch'], 1)}]"
     n_ok = n_flow = n_tot = 0
     prev = np.zeros_like(strains[0])
     for k, eps in enumerate(strains):
         z0 = np.array(z, float)
         before = z0.tobytes()
-        out1 = integrate(beh, eps, z, dt)
+        out1 = integrate_by_column(beh, mode, eps, z, dt, cls)
         rec.require(np.asarray(z).tobytes() == before, "zOld_unchanged",
                     f"step {k}: Integrate modified the committed state it was given", **sg)
-        out2 = integrate(beh, eps, z, dt)
+        out2 = integrate_by_column(beh, mode, eps, z, dt, cls, with_eps6=False)
         rec.require(np.asarray(z).tobytes() == before, "zOld_unchanged",
                     f"step {k}: Integrate modified the committed state it was given (2nd call)", **sg)
         rec.require(all(identical(a, b) for a, b in zip(out1, out2)), "repeatable",
                     f"step {k}: two identical Integrate calls returned different outputs", **sg)
-        sig, Calg, zn, ok = out1
+        sig, Calg, zn, ok, eps6 = out1
         ok = np.asarray(ok, bool)
         z1 = np.array(zn, float)
         nc = cr.ncomp_of(mode)
         rec.require(np.asarray(sig).shape == (Ne, nPg, nc) and np.asarray(Calg).shape == (Ne, nPg, nc, nc)
                     and z1.shape == z0.shape and ok.shape == (Ne, nPg), "shapes", f"step {k}: output shapes", **sg)
-        eps6 = strain6(beh, mode, eps, z, dt)
+        eps6 = np.where(ok[..., None], eps6, 0.0)
+        z1 = np.where(ok[..., None], z1, z0)
         sc.see(eps6)
         flowing = step_oracles(rec, spec, ref, sc, sg, eps6, z0, z1, np.asarray(sig, float), ok, k)
         moved = np.abs(eps - prev).max(axis=-1) > 0
@@ -596,7 +629,7 @@ SUBS = [
     Sub("paths_3d", check_paths, gen=path_cases(("3D",)), quick=110, thorough=1500, shards=6,
         doc="pointwise oracles + purity along generated strain paths, 3D"),
     Sub("paths_pstrain", check_paths, gen=path_cases(("PE",)), quick=110, thorough=1500, shards=4),
-    Sub("paths_pstress", check_paths, gen=path_cases(("PS",)), quick=40, thorough=800, shards=6),
+    Sub("paths_pstress", check_paths, gen=path_cases(("PS",)), quick=36, thorough=800, shards=6),
     Sub("tangent", check_tangent, gen=tangent_cases, quick=120, thorough=1500, shards=6),
     Sub("solvers", check_solvers, gen=solver_cases, quick=120, thorough=1500, shards=4),
     Sub("elastic_limit", check_elastic, gen=elastic_cases, quick=200, thorough=2000, shards=2),
